@@ -776,6 +776,12 @@ def items_mut2(tier):
             out.append(('mut2', b.name, i, j, 'a12'))
             if tier == 'thorough' and b.tier == 'quick':
                 out.append(('mut2', b.name, i, j, 'wide'))
+            elif tier == 'quick' and b.kind in ('T1', 'T2') and all(
+                    b.fields[x][2][:1] in 'VL' and '(' in b.fields[x][2]
+                    for x in (i, j)):
+                # TLV length / control TLV value octets of Type 1 and 2:
+                # the reserved ranges they describe interact (DESIGN 7.2)
+                out.append(('mut2', b.name, i, j, 'wide'))
     return out
 
 
